@@ -43,7 +43,8 @@ def proof_step(prop, theorems, module, thorough=False, pre=None):
         if not ok:
             res["failed"] = ["<generation> " + msg]
             return res
-    rc, out = sh(["lake", "build", "drv", module])
+    os.makedirs(os.path.join(LEAN, ".lake"), exist_ok=True)
+    rc, out = sh(["flock", os.path.join(LEAN, ".lake", "verif-build.lock"), "lake", "build", "drv", module])
     if rc != 0:
         res["log"] = out[-4000:]
         res["failed"] = ["<build> " + module]
